@@ -74,6 +74,10 @@ class DRBG(object):
                 self.tvar = (u[0].id, u[2].id)
             if isinstance(n, ast.For) and isinstance(n.iter, ast.Name):
                 self.bx = n.iter.id
+        # T by role: the octets the candidate is taken from (first argument of bits2int)
+        cand = {_name(n.args[0]) for n in ast.walk(self.f.node) if isinstance(n, ast.Call) and _callee(n) == "bits2int" and n.args and _name(n.args[0])}
+        if len(cand) == 1:
+            self.tvar = (cand.pop(), self.vvar)
         if not (self.kvar and self.vvar and self.tvar and self.tvar[1] == self.vvar):
             raise AnalysisError("generate_k: cannot identify the K / V / T variables of the DRBG")
         self.tvar = self.tvar[0]
